@@ -31,28 +31,42 @@ def _at(v, s, j):
     return s.at(j) if v.symbolic else s[j]
 
 
-@harness("C03", "stoich_tuples", functions=[CH + ":Reaction.net_stoich", CH + ":Reaction.all_reac_stoich", CH + ":Reaction.active_reac_stoich",
-                                            CH + ":Reaction.all_prod_stoich", CH + ":Reaction.active_prod_stoich", CH + ":Reaction.order"], samples=40)
-def _(v):
-    from chempy.chemistry import Reaction
-    rxn = sym_reaction(v)
-    keys = v.seq("substance_keys", "str", maxlen=5, pool=KEYS)
-    n = _len(v, keys)
+def _stoich_specs(rxn):
+    """per method: coefficient of substance key k, written out from the property's four maps (active / inactive reactants and products)"""
     g = SP.dget
-    specs = {
+    return {
         "net_stoich": lambda k: g(rxn.prod, k) - g(rxn.reac, k) + g(rxn.inact_prod, k) - g(rxn.inact_reac, k),
         "all_reac_stoich": lambda k: g(rxn.reac, k) + g(rxn.inact_reac, k),
         "active_reac_stoich": lambda k: g(rxn.reac, k),
         "all_prod_stoich": lambda k: g(rxn.prod, k) + g(rxn.inact_prod, k),
         "active_prod_stoich": lambda k: g(rxn.prod, k),
     }
-    for name, sp in specs.items():
+
+
+def _stoich_tuple(name):
+    # one harness per method (obligation names unchanged: C03.stoich_tuples.<method>.<what>), so that a construct outside the accepted subset in
+    # ONE of the five methods leaves the obligations about the other four (and about order()) decided
+    @harness("C03", "stoich_tuples." + name, functions=[CH + ":Reaction." + name], samples=40)
+    def _(v):
+        rxn = sym_reaction(v)
+        keys = v.seq("substance_keys", "str", maxlen=5, pool=KEYS)
+        n = _len(v, keys)
+        sp = _stoich_specs(rxn)[name]
         r = v.call(getattr(rxn, name), keys)
-        v.prove(name + ".length", _len(v, r) == n)
-        v.prove(name + ".pointwise", SP.forall_int(0, n, lambda j: _at(v, r, j) == sp(_at(v, keys, j))))
-    r = v.call(rxn.net_stoich, keys)
-    if v.symbolic or n > 0:
-        v.prove("net_stoich.canary", SP.implies(n > 0, SP.neg(_at(v, r, 0) == specs["net_stoich"](_at(v, keys, 0)) + 1)))
+        v.prove("length", _len(v, r) == n)
+        v.prove("pointwise", SP.forall_int(0, n, lambda j: _at(v, r, j) == sp(_at(v, keys, j))))
+        if name == "net_stoich" and (v.symbolic or n > 0):
+            v.prove("canary", SP.implies(n > 0, SP.neg(_at(v, r, 0) == sp(_at(v, keys, 0)) + 1)))
+    return _
+
+
+for _n in ("net_stoich", "all_reac_stoich", "active_reac_stoich", "all_prod_stoich", "active_prod_stoich"):
+    _stoich_tuple(_n)
+
+
+@harness("C03", "stoich_tuples", functions=[CH + ":Reaction.order"], samples=40)
+def _(v):
+    rxn = sym_reaction(v)
     v.prove("order", v.call(rxn.order) == SP.ssum(rxn.reac, lambda kv: kv[1]))
 
 
@@ -66,12 +80,23 @@ def _(v):
         for k in KEYS:
             conc.setdefault(k, 1.5)
     v.assume(SP.forall(rxn.reac, lambda k, nu: SP.dhas(conc, k)))
+    # the same precondition once more, position by position of the map's key sequence (a consequence of the line above, every position holds a key
+    # of the map; the solver derives it when asked to, so nothing is added to what is assumed): in this form it settles `key in variables` for the
+    # element at a BOUND position, which is what the code asks when the product is written as a fold over a generator
+    # (functools.reduce(mul, (variables[k] ** nu for k, nu in reac.items()), 1)) instead of a loop
+    v.assume(SP.forall(rxn.reac.keys(), lambda k: SP.dhas(conc, k)))
     k_rate = v.real("k", lo=0, hi=9)
     ma = MassAction([k_rate])
 
     def term(kv):
         return SP.spow(SP.dget(conc, kv[0], 0.0), kv[1])
-    v.invariant(MassAction.active_conc_prod, 0, lambda env, i, seq: env["@acc"] == SP.sprod_prefix(seq, i, term))
+
+    def term_of(el):
+        """the factor that belongs to one element of the loop's sequence, whatever the loop iterates: (key, coefficient) pairs of the map
+        (`.items()`) or its keys alone (`for key in reac` / `.keys()`), where the coefficient of a key is reac[key].  Which sequence the code
+        iterates is not prescribed here: the postconditions below compare the result with the product over rxn.reac itself."""
+        return term(el) if isinstance(el, tuple) else term((el, rxn.reac.value(el)))
+    v.invariant(MassAction.active_conc_prod, 0, lambda env, i, seq: env["@acc"] == SP.sprod_prefix(seq, i, term_of))
     cp = v.call(ma.active_conc_prod, conc, reaction=rxn)
     v.prove("only_active_reactants", v.eq(cp, SP.sprod(rxn.reac, term)))
     r = v.call(ma, conc, reaction=rxn)
@@ -342,25 +367,24 @@ def _(v):
     import numpy as np
     from chempy.chemistry import Reaction, Substance
     from chempy.reactionsystem import ReactionSystem
-    from contracts._purity import prove_pure, deep_equal
+    from contracts._purity import deep_equal
     rsys = ReactionSystem([Reaction({"A": 1}, {"B": 1, "C": 1}, 2.0), Reaction({"B": 1}, {"D": 1}, 3.0), Reaction({"A": 1, "B": 2}, {"C": 1}, 5.0, inact_reac={"D": 1})],
                           [Substance(k) for k in "ABCD"], checks=())
     mk = lambda: (({"A": np.array([1.0, 2.0, 3.0]), "B": np.array([2.0, 3.0, 5.0]), "C": np.array([0.5, 0.25, 4.0]), "D": np.array([1.0, 1.0, 2.0])},), {})
-    r = prove_pure(v, "system", rsys.rates, mk)
+    r = _pure(v, "system", rsys.rates, mk)
     c = mk()[0][0]
     r0, r1, r2 = 2.0 * c["A"], 3.0 * c["B"], 5.0 * c["A"] * c["B"] ** 2
     want = {"A": -r0 - r2, "B": r0 - r1 - 2 * r2, "C": r0 + r2, "D": r1 - r2}
-    v.prove("system.each_substance_is_the_sum_of_its_own_contributions", all(np.allclose(r[k], want[k], rtol=1e-14, atol=0) for k in "ABCD"), detail=repr(r))
-    rev = ReactionSystem(rsys.rxns[::-1], [Substance(k) for k in "ABCD"], checks=())
-    rr = rev.rates(mk()[0][0])
-    v.prove("system.independent_of_reaction_order", all(np.allclose(rr[k], want[k], rtol=1e-14, atol=0) for k in "ABCD"), detail=repr(rr))
-    prove_pure(v, "single_reaction", rsys.rxns[2].rate, mk)
+    v.prove("system.each_substance_is_the_sum_of_its_own_contributions", r is not None and all(np.allclose(r[k], want[k], rtol=1e-14, atol=0) for k in "ABCD"), detail=repr(r))
+    rr, err = _attempt(lambda: ReactionSystem(rsys.rxns[::-1], [Substance(k) for k in "ABCD"], checks=()).rates(mk()[0][0]))
+    v.prove("system.independent_of_reaction_order", err is None and all(np.allclose(rr[k], want[k], rtol=1e-14, atol=0) for k in "ABCD"), detail=err or repr(rr))
+    _pure(v, "single_reaction", rsys.rxns[2].rate, mk)
     try:
         from chempy.units import default_units as u, to_unitless
         mq = lambda: (({"A": 1.0 * u.molar, "B": 2.0 * u.molar, "C": 0.5 * u.molar, "D": 1.0 * u.molar},), {})
         rq_sys = ReactionSystem([Reaction({"A": 1}, {"B": 1, "C": 1}, 2.0 / u.second), Reaction({"B": 1}, {"D": 1}, 3.0 / u.second)], [Substance(k) for k in "ABCD"], checks=())
-        rq = prove_pure(v, "quantities", rq_sys.rates, mq, materialise=lambda d: {k: float(to_unitless(x, u.molar / u.second)) for k, x in d.items()})
-        v.prove("quantities.values", deep_equal(rq, {"A": -2.0, "B": 2.0 - 6.0, "C": 2.0, "D": 6.0}), detail=repr(rq))
+        rq = _pure(v, "quantities", rq_sys.rates, mq, materialise=lambda d: {k: float(to_unitless(x, u.molar / u.second)) for k, x in d.items()})
+        v.prove("quantities.values", rq is not None and deep_equal(rq, {"A": -2.0, "B": 2.0 - 6.0, "C": 2.0, "D": 6.0}), detail=repr(rq))
     except ImportError:
         return
     # quantities in different but compatible units: the SECOND factor of the concentration product (3000 mol/m3 = 3 M), two rate constants
@@ -397,18 +421,18 @@ def _(v):
     for label, half, threehalves in (("fraction", Fr(1, 2), Fr(3, 2)), ("float", 0.5, 1.5)):
         rsys = ReactionSystem([Reaction({"A": 1}, {"B": half, "C": threehalves}, 3, checks=()), Reaction({"B": 2, "C": threehalves}, {"A": 1}, 2, inact_prod={"C": half}, checks=())],
                               [Substance(k) for k in "ABC"], checks=())
-        mats = {a: [list(row) for row in getattr(rsys, a)()] for a in ("net_stoichs", "all_reac_stoichs", "all_prod_stoichs", "active_reac_stoichs", "active_prod_stoichs")}
+        mats, err = _attempt(lambda: {a: [list(row) for row in getattr(rsys, a)()] for a in ("net_stoichs", "all_reac_stoichs", "all_prod_stoichs", "active_reac_stoichs", "active_prod_stoichs")})
         want = {"net_stoichs": [[-1, half, threehalves], [1, -2, half - threehalves]], "all_reac_stoichs": [[1, 0, 0], [0, 2, threehalves]],
                 "all_prod_stoichs": [[0, half, threehalves], [1, 0, half]], "active_reac_stoichs": [[1, 0, 0], [0, 2, threehalves]], "active_prod_stoichs": [[0, half, threehalves], [1, 0, 0]]}
-        v.prove(label + ".matrices_hold_the_coefficients_as_written", mats == want, detail=repr({k: m for k, m in mats.items() if m != want[k]}))
+        v.prove(label + ".matrices_hold_the_coefficients_as_written", err is None and mats == want, detail=err or repr({k: m for k, m in mats.items() if m != want[k]}))
         c = {"A": 7, "B": 4, "C": 9}
         conc = [c[k] for k in "ABC"]
         r1, r2 = 3 * 7, 2 * 4 ** 2 * 27            # 9**(3/2) = 27
         expect = [-r1 + r2, half * r1 - 2 * r2, threehalves * r1 + (half - threehalves) * r2]
-        got = list(dCdt_list(rsys, list(law_of_mass_action_rates(conc, rsys))))
-        viadict = rsys.rates(c)
-        v.prove(label + ".array_path", all(abs(float(g) - float(e)) <= 1e-12 * abs(float(e)) for g, e in zip(got, expect)), detail="%r want %r" % (got, expect))
-        v.prove(label + ".dict_path_agrees", all(abs(float(viadict[k]) - float(e)) <= 1e-12 * abs(float(e)) for k, e in zip("ABC", expect)), detail=repr(viadict))
+        got, err = _attempt(lambda: list(dCdt_list(rsys, list(law_of_mass_action_rates(conc, rsys)))))
+        v.prove(label + ".array_path", err is None and len(got) == 3 and all(abs(float(g) - float(e)) <= 1e-12 * abs(float(e)) for g, e in zip(got, expect)), detail=err or "%r want %r" % (got, expect))
+        viadict, err = _attempt(lambda: rsys.rates(c))
+        v.prove(label + ".dict_path_agrees", err is None and all(abs(float(viadict[k]) - float(e)) <= 1e-12 * abs(float(e)) for k, e in zip("ABC", expect)), detail=err or repr(viadict))
 
 
 @harness("C03", "feed_and_restricted_keys_together", functions=[RS + ":ReactionSystem.rates"], kind="data")
@@ -455,6 +479,17 @@ def _attempt(thunk):
         return thunk(), None
     except Exception as e:
         return None, "%s: %s" % (type(e).__name__, e)
+
+
+def _pure(v, name, f, make_args, **kw):
+    """contracts._purity.prove_pure (proves <name>.inputs_not_modified / .second_evaluation_gives_the_same_result / .same_result_on_fresh_inputs and
+    returns the first result); an exception of the code under test is the failed obligation <name>.evaluates and the result None"""
+    from contracts._purity import prove_pure
+    try:
+        return prove_pure(v, name, f, make_args, **kw)
+    except Exception as e:
+        v.prove(name + ".evaluates", False, detail="%s: %s" % (type(e).__name__, e))
+        return None
 
 
 @harness("C03", "substance_keys_differ_from_substance_names", functions=[RS + ":ReactionSystem.rates", RS + ":ReactionSystem._stoichs", RS + ":ReactionSystem.as_substance_index",
